@@ -1,4 +1,5 @@
 """C05 — see coq/Properties/C05.v (theorems) and lib/envcheck.py (tie + monitor)."""
+import json
 import envcheck
 from vlib import Check
 
@@ -14,7 +15,7 @@ RUNS = {
     "C20": lambda seed, n: [["-seed", str(seed), "-n", str(n), "-x", "norevoke"]],
 }
 
-RULE = ("random histories over 13 cache configurations (default, minute precision, no cache, SK-only, shared LRU-2, shared simple, SK LRU-1, IK SLRU-1, IK LFU-2, "
+RULE = ("random histories over 14 configurations (default, minute precision, RevokeCheckInterval 0, no cache, SK-only, shared LRU-2, shared simple, SK LRU-1, IK SLRU-1, IK LFU-2, "
         "tinylfu, session cache 2, session cache 1 with expiry, no-cache+shared): 1-2 factories sharing one metastore, 1-3 partitions, encrypt/decrypt "
         "(25% with 1-2 injected faults: err / false duplicate / error-after-write on any boundary call), clock advances drawn from boundary values "
         "(+-1ns around RCI, expiry, precision), revocation of latest/older IK/SK, session close/reopen, factory restart, final decrypt of every record "
@@ -26,6 +27,25 @@ def main(tier, seed, replay):
     ck = Check(prop, tier, seed)
     ck.coq_theorems()
     n = 240 if tier == "quick" else 2400
+    # what the bound rests on at the metastore: a Revoked flag an operator sets in the table is visible to the very next Load / LoadLatest
+    # of every implementation (SQL x3, DynamoDB v1/v2 over fakes in which a read without strong consistency lags one write behind)
+    meta_replay = bool(replay) and '"impl"' in open(replay).read()[:3000]
+    if not replay or meta_replay:
+        mcases = envcheck.run_harness(ck, "meta", [["-replay", replay]] if replay else [["-seed", str(seed + 13), "-n", "600" if tier == "quick" else "6000", "-x", "revoke"]])
+        if mcases is None:
+            return ck.finish()
+        stale = [c for c in mcases if any("Revoked flag" in v for v in c.get("viol") or [])]
+        ck.oblige(not stale, "every metastore implementation shows a Revoked flag set in the table to the next read (%d op sequences with operator revocations)" % len(mcases),
+                  json.dumps(stale[:1])[:3000])
+        ck.cov["metastore_sequences_with_revocations"] = len(mcases)
+        ck.cov["revocations_applied"] = sum(1 for c in mcases for o, b in zip(c["ops"], c["obs"]) if o["k"] == "revoke" and b["r"] == "true")
+        if stale:
+            v = dict(stale[0])
+            v["viol"] = [x for x in v["viol"] if "Revoked flag" in x]
+            ck.violation(ck.replay_file("metastore", {"what": v["viol"][0], "Case": v}))
+        if meta_replay:
+            ck.cov.update({"evaluations": len(mcases), "distinct_nontrivial": len(mcases), "rule": "replay"})
+            return ck.finish()
     runs = [["-replay", replay]] if replay else RUNS[prop](seed, n)
     cases = envcheck.run_harness(ck, "env", runs)
     if cases is None:
